@@ -8,7 +8,8 @@
 (declare-datatypes ((BS 0)) (((mkBS (bs_c Str) (bs_nil Bool)))))
 (declare-datatypes ((Iface 0)) (((mkI (i_typ Int) (i_val Int)))))
 ;; section hex
-;; provides hex unhex
+;; spec hex (Str) Str
+;; spec unhex (Str) Str
 (declare-fun hex (Str) Str)
 (declare-fun unhex (Str) Str)
 (assert (forall ((s Str)) (! (= (unhex (hex s)) s) :pattern ((hex s)))))
